@@ -37,6 +37,8 @@ def rule_C10(env):
     obligations = 0
     opt_names = {spec.row(k)["name"]: flag for k, flag in OPT.items()}
     samples = []
+    # "unless ... were enabled": the configuration a user gets without asking for anything has both opt-ins off
+    PV.default_flags_premise(env, res, ["allow_ext_opcodes", "allow_buffer_opcodes"], "EXT / buffer opcodes are opt-in: the default must be off")
     for unsafe in (False, True):
         tr = PV.get_trans(env, unsafe)
         for op, lvs in tr.items():
